@@ -256,30 +256,37 @@ theorem go_le : ∀ (fuel : Nat) (m : Mode) (d : Nat) (s : Str), d ≤ 64 → (g
     | spec =>
       unfold go
       split
-      · omega
+      · dsimp only; omega
       · rename_i hd
         have hd' : d + 1 ≤ 64 := by unfold maxNesting at hd; omega
-        split
+        have := ih .inner (d + 1) s hd'
+        dsimp only; omega
+    | inner =>
+      unfold go
+      split
+      · dsimp only; omega
+      · dsimp only; omega
+      · dsimp only; omega
+      · dsimp only; omega
+      · split
         · dsimp only; omega
-        · dsimp only; omega
-        · dsimp only; omega
+        · rename_i r1 _
+          have := ih .spec d r1 h
+          dsimp only; omega
+      · split
         · dsimp only; omega
         · split
           · dsimp only; omega
-          · rename_i r1 _
-            have := ih .spec (d + 1) r1 hd'
+          · rename_i r2 _
+            have := ih .spec d r2 h
             dsimp only; omega
-        · split
-          · dsimp only; omega
-          · split
-            · dsimp only; omega
-            · rename_i r2 _
-              have := ih .spec (d + 1) r2 hd'
-              dsimp only; omega
-            · rename_i r2 _
-              have := ih (.loop 0) (d + 1) r2 hd'
-              dsimp only; omega
-        · dsimp only; omega
+          · rename_i r2 _
+            have := ih .spec d r2 h
+            dsimp only; omega
+          · rename_i r2 _
+            have := ih (.loop 0) d r2 h
+            dsimp only; omega
+      · dsimp only; omega
     | loop vc =>
       unfold go
       split
@@ -293,15 +300,273 @@ theorem go_le : ∀ (fuel : Nat) (m : Mode) (d : Nat) (s : Str), d ≤ 64 → (g
           dsimp only; omega
         · dsimp only; omega
 
-theorem parse_depth (s : Str) : (parse s).2 ≤ 65 := by
+theorem andThen_deep (o : Out) (f : Str → Option Str) (r : Str) :
+    o.andThen f = .deep r ↔ o = .deep r := by
+  cases o with
+  | ok x => simp only [Out.andThen]; cases f x <;> simp [Out.ofOpt]
+  | deep x => simp [Out.andThen]
+  | err => simp [Out.andThen]
+
+theorem ofOpt_not_deep (o : Option Str) (r : Str) : Out.ofOpt o ≠ .deep r := by
+  cases o <;> simp [Out.ofOpt]
+
+/-- `NestingTooDeep` is reported exactly when a 65th `parse_espec` frame is asked for: entered
+with `self.depth ≤ 64`, in every mode, the deepest frame is 65 iff the outcome is `deep`. -/
+theorem go_deep_iff : ∀ (fuel : Nat) (m : Mode) (d : Nat) (s : Str), d ≤ 64 →
+    ((go fuel m d s).2 = 65 ↔ ∃ r, (go fuel m d s).1 = .deep r) := by
+  intro fuel
+  induction fuel with
+  | zero =>
+    intro m d s h; simp only [go]; constructor
+    · intro h'; omega
+    · intro ⟨r, h'⟩; cases h'
+  | succ f ih =>
+    intro m d s h
+    cases m with
+    | spec =>
+      unfold go
+      split
+      · rename_i hd
+        unfold maxNesting at hd
+        dsimp only
+        constructor
+        · intro _; exact ⟨s, rfl⟩
+        · intro _; omega
+      · rename_i hd
+        have hd' : d + 1 ≤ 64 := by unfold maxNesting at hd; omega
+        have h1 := ih .inner (d + 1) s hd'
+        have h2 := go_le f .inner (d + 1) s hd'
+        dsimp only
+        rw [← h1]; omega
+    | inner =>
+      unfold go
+      split
+      · dsimp only; constructor
+        · intro h'; omega
+        · intro ⟨r, h'⟩; cases h'
+      · dsimp only; constructor
+        · intro h'; omega
+        · intro ⟨r, h'⟩; exact absurd h' (ofOpt_not_deep _ _)
+      · dsimp only; constructor
+        · intro h'; omega
+        · intro ⟨r, h'⟩; exact absurd h' (ofOpt_not_deep _ _)
+      · dsimp only; constructor
+        · intro h'; omega
+        · intro ⟨r, h'⟩; exact absurd h' (ofOpt_not_deep _ _)
+      · split
+        · dsimp only; constructor
+          · intro h'; omega
+          · intro ⟨r, h'⟩; cases h'
+        · rename_i r1 _
+          have h1 := ih .spec d r1 h
+          have h2 := go_le f .spec d r1 h
+          dsimp only
+          simp only [andThen_deep]
+          rw [← h1]; omega
+      · split
+        · dsimp only; constructor
+          · intro h'; omega
+          · intro ⟨r, h'⟩; cases h'
+        · split
+          · dsimp only; constructor
+            · intro h'; omega
+            · intro ⟨r, h'⟩; cases h'
+          · rename_i r2 _
+            have h1 := ih .spec d r2 h
+            have h2 := go_le f .spec d r2 h
+            dsimp only
+            rw [← h1]; omega
+          · rename_i r2 _
+            have h1 := ih .spec d r2 h
+            have h2 := go_le f .spec d r2 h
+            dsimp only
+            rw [← h1]; omega
+          · rename_i r2 _
+            have h1 := ih (.loop 0) d r2 h
+            have h2 := go_le f (.loop 0) d r2 h
+            dsimp only
+            simp only [andThen_deep]
+            rw [← h1]; omega
+      · dsimp only; constructor
+        · intro h'; omega
+        · intro ⟨r, h'⟩; cases h'
+    | loop vc =>
+      unfold go
+      split
+      · dsimp only; constructor
+        · intro h'; omega
+        · intro ⟨r, h'⟩; cases h'
+      · rename_i vc' r _
+        have h1 := ih .spec d r h
+        have hl1 := go_le f .spec d r h
+        dsimp only
+        split
+        · rename_i r2 hx
+          have h2 := ih (.loop vc') d r2 h
+          have hl2 := go_le f (.loop vc') d r2 h
+          dsimp only
+          have hx1 : (go f .spec d r).2 ≠ 65 := by
+            intro h65
+            obtain ⟨q, hq⟩ := h1.mp h65
+            rw [hq] at hx; cases hx
+          rw [← h2]; omega
+        · dsimp only; exact h1
+
+/-- `Parser::parse` spelled out on the outcome of the top-level `parse_espec`. -/
+theorem parseX_eq (s : Str) : parseX s =
+    if s.isEmpty then (.other, 0)
+    else ((match (top s).1 with
+      | .ok [] => Res.ok
+      | .ok _ => .other
+      | .deep r => .deep (s.length - r.length)
+      | .err => .other), (top s).2) := by
+  unfold parseX
+  split
+  · rfl
+  · generalize top s = t
+    obtain ⟨o, m⟩ := t
+    cases o with
+    | ok r => cases r <;> rfl
+    | deep r => rfl
+    | err => rfl
+
+theorem parse_snd (s : Str) : (parse s).2 = (parseX s).2 := by
   unfold parse
+  split <;> rename_i h <;> rw [h]
+
+theorem parse_depth (s : Str) : (parse s).2 ≤ 65 := by
+  have := go_le (2 * s.length + 2) .spec 0 s (by omega)
+  rw [parse_snd, parseX_eq]
   split
   · dsimp only; omega
-  · have := go_le (2 * s.length + 2) .spec 0 s (by omega)
+  · exact this
+
+/-- `Parser::parse` answers `NestingTooDeep` exactly when the string asks for a 65th frame. -/
+theorem parse_deep_iff (s : Str) : (parse s).2 = 65 ↔ ∃ p, (parseX s).1 = .deep p := by
+  have h := go_deep_iff (2 * s.length + 2) .spec 0 s (by omega)
+  rw [parse_snd, parseX_eq]
+  split
+  · dsimp only; constructor
+    · intro h'; omega
+    · intro ⟨p, h'⟩; cases h'
+  · dsimp only
     unfold top
-    split
-    · dsimp only; rename_i m hm; rw [hm] at this; exact this
-    · dsimp only; rename_i m hm; rw [hm] at this; exact this
+    rw [h]
+    generalize (go (2 * s.length + 2) .spec 0 s).1 = o
+    cases o with
+    | ok r =>
+      cases r <;> (constructor <;> (intro ⟨_, h'⟩; cases h'))
+    | deep r => constructor <;> intro _ <;> exact ⟨_, rfl⟩
+    | err => constructor <;> (intro ⟨_, h'⟩; cases h')
+
+/-- a brace-less recursive production: a prefix `p` after which `parse_espec`, entered below the
+limit, does nothing but enter `parse_espec` ONE LEVEL DEEPER on what follows (so the level is
+counted: a production that went through `parse_espec_inner` instead would hand on `d`). -/
+def Transparent (p : Str) : Prop :=
+  ∀ (f d : Nat) (s : Str), d < 64 →
+    go (f + 2) .spec d (p ++ s) = ((go f .spec (d + 1) s).1, max (d + 1) (go f .spec (d + 1) s).2)
+
+/-- `p` repeated `n` times in front of `core`. -/
+def nest (p : Str) : Nat → Str → Str
+  | 0, core => core
+  | n + 1, core => p ++ nest p n core
+
+theorem nest_length (p : Str) (n : Nat) (c : Str) : (nest p n c).length = n * p.length + c.length := by
+  induction n with
+  | zero => simp [nest]
+  | succ n ih => simp only [nest, List.length_append, ih, Nat.add_mul]; omega
+
+theorem nest_ok (p : Str) (hp : Transparent p) : ∀ (n d f : Nat), d + n ≤ 63 → 2 * n + 2 ≤ f →
+    go f .spec d (nest p n ['n']) = (.ok [], d + n + 1) := by
+  intro n
+  induction n with
+  | zero =>
+    intro d f hd hf
+    obtain ⟨f', rfl⟩ : ∃ f', f = f' + 2 := ⟨f - 2, by omega⟩
+    have h64 : ¬ maxNesting ≤ d := by unfold maxNesting; omega
+    simp [nest, go, h64]
+  | succ n ih =>
+    intro d f hd hf
+    obtain ⟨f', rfl⟩ : ∃ f', f = f' + 2 := ⟨f - 2, by omega⟩
+    rw [nest, hp f' d _ (by omega), ih (d + 1) f' (by omega) (by omega)]
+    simp only [Prod.mk.injEq, true_and]
+    omega
+
+theorem nest_deep (p : Str) (hp : Transparent p) (core : Str) : ∀ (n d f : Nat), d ≤ 64 → 64 ≤ d + n →
+    2 * (64 - d) + 1 ≤ f →
+    go f .spec d (nest p n core) = (.deep (nest p (n - (64 - d)) core), 65) := by
+  intro n
+  induction n with
+  | zero =>
+    intro d f hd hn hf
+    obtain ⟨f', rfl⟩ : ∃ f', f = f' + 1 := ⟨f - 1, by omega⟩
+    have : d = 64 := by omega
+    subst this
+    simp [nest, go, maxNesting]
+  | succ n ih =>
+    intro d f hd hn hf
+    by_cases h : d = 64
+    · subst h
+      obtain ⟨f', rfl⟩ : ∃ f', f = f' + 1 := ⟨f - 1, by omega⟩
+      simp [go, maxNesting]
+    · obtain ⟨f', rfl⟩ : ∃ f', f = f' + 2 := ⟨f - 2, by omega⟩
+      rw [nest, hp f' d _ (by omega), ih (d + 1) f' (by omega) (by omega) (by omega)]
+      have e : n + 1 - (64 - d) = n - (64 - (d + 1)) := by omega
+      rw [e]
+      simp only [Prod.mk.injEq, true_and]
+      omega
+
+theorem nest_parse (p : Str) (hp : Transparent p) (hne : p ≠ []) (n : Nat) :
+    parseX (nest p n ['n']) = if n ≤ 63 then (.ok, n + 1) else (.deep (64 * p.length), 65) := by
+  have hl : (nest p n ['n']).length = n * p.length + 1 := nest_length p n ['n']
+  have hpl : 1 ≤ p.length := by cases p with | nil => exact absurd rfl hne | cons _ _ => simp
+  have hnl : n ≤ n * p.length := Nat.le_mul_of_pos_right n hpl
+  have hnonempty : (nest p n ['n']).isEmpty = false := by
+    cases h : nest p n ['n'] with
+    | nil => rw [h] at hl; simp at hl
+    | cons _ _ => rfl
+  rw [parseX_eq, hnonempty]
+  simp only [Bool.false_eq_true, if_false]
+  unfold top
+  by_cases h : n ≤ 63
+  · rw [if_pos h, nest_ok p hp n 0 _ (by omega) (by omega)]
+    simp
+  · rw [if_neg h, nest_deep p hp ['n'] n 0 _ (by omega) (by omega) (by omega)]
+    obtain ⟨k, rfl⟩ : ∃ k, n = 64 + k := ⟨n - 64, by omega⟩
+    have e : 64 + k - (64 - 0) = k := by omega
+    simp only [e, hl, nest_length, Nat.add_mul, List.length_cons, List.length_nil]
+    congr 2
+    omega
+
+theorem transparent_b1 : Transparent "b:1=".toList := by
+  intro f d s hd
+  have h64 : ¬ maxNesting ≤ d := by unfold maxNesting; omega
+  simp [go, h64, consume, blockHead, headIs, headDigit, isDigit, sizeSpec, number, List.takeWhile, List.dropWhile]
+  omega
+
+theorem transparent_bstar : Transparent "b:*=".toList := by
+  intro f d s hd
+  have h64 : ¬ maxNesting ≤ d := by unfold maxNesting; omega
+  simp [go, h64, consume, blockHead, headIs, headDigit, isDigit]
+  omega
+
+theorem transparent_b256K4 : Transparent "b:256K*4=".toList := by
+  intro f d s hd
+  have h64 : ¬ maxNesting ≤ d := by unfold maxNesting; omega
+  simp [go, h64, consume, blockHead, headIs, headDigit, isDigit, sizeSpec, number, numberIn, List.takeWhile, List.dropWhile]
+  omega
+
+theorem transparent_b16Kstar : Transparent "b:16K*=".toList := by
+  intro f d s hd
+  have h64 : ¬ maxNesting ≤ d := by unfold maxNesting; omega
+  simp [go, h64, consume, blockHead, headIs, headDigit, isDigit, sizeSpec, number, List.takeWhile, List.dropWhile]
+  omega
+
+theorem transparent_b1M : Transparent "b:1M=".toList := by
+  intro f d s hd
+  have h64 : ¬ maxNesting ≤ d := by unfold maxNesting; omega
+  simp [go, h64, consume, blockHead, headIs, headDigit, isDigit, sizeSpec, number, List.takeWhile, List.dropWhile]
+  omega
 
 end ESpec
 
